@@ -423,7 +423,7 @@ type anyOfValidator struct {
 
 func (v *anyOfValidator) generate(out *codegen.Emitter, format string) {
 	for i := range v.elemCount {
-		out.Printlnf(`var %s_%d %s_%d`, lowerFirst(v.fieldName), i, upperFirst(v.fieldName), i)
+		out.Printlnf(`var %s_%d %s_%d`, lowerFirst(v.fieldName), i, v.fieldName, i)
 	}
 
 	out.Printlnf(`var errs []error`)
